@@ -253,7 +253,7 @@ def statLines (r : StatRec) : List Bytes :=
   ++ [statLine kIntr (r.intr :: r.intrRest),
       statLine kCtxt [r.ctxt],
       statLine kBtime [r.btime],
-      statLine (bytesOf "processes") [r.processes],
+      statLine (([112, 114, 111, 99, 101, 115, 115, 101, 115] : Bytes)) [r.processes],
       statLine kSoftirq (r.softirq :: r.softirqRest)]
 
 def renderStat (r : StatRec) : Bytes := unlines (statLines r)
@@ -273,11 +273,11 @@ def pad3 (n : Nat) : Bytes := [48 + n / 100 % 10, 48 + n / 10 % 10, 48 + n % 10]
 
 /-- arch/x86/kernel/cpu/proc.c: show_cpuinfo() (the fields psutil looks at, and two it must ignore) -/
 def blockLines (b : CpuBlock) : List Bytes :=
-  [bytesOf "processor" ++ tabColon ++ renderDec b.processor,
-   bytesOf "model name" ++ tabColon ++ bytesOf "Fake CPU @ 2.40GHz",
-   bytesOf "cpu MHz" ++ [9] ++ tabColon ++ renderDec b.mhzInt ++ [46] ++ pad3 b.mhzMilli,
-   bytesOf "physical id" ++ tabColon ++ renderDec b.physicalId,
-   bytesOf "cpu cores" ++ tabColon ++ renderDec b.cores,
+  [([112, 114, 111, 99, 101, 115, 115, 111, 114] : Bytes) ++ tabColon ++ renderDec b.processor,
+   ([109, 111, 100, 101, 108, 32, 110, 97, 109, 101] : Bytes) ++ tabColon ++ ([70, 97, 107, 101, 32, 67, 80, 85, 32, 64, 32, 50, 46, 52, 48, 71, 72, 122] : Bytes),
+   ([99, 112, 117, 32, 77, 72, 122] : Bytes) ++ [9] ++ tabColon ++ renderDec b.mhzInt ++ [46] ++ pad3 b.mhzMilli,
+   ([112, 104, 121, 115, 105, 99, 97, 108, 32, 105, 100] : Bytes) ++ tabColon ++ renderDec b.physicalId,
+   ([99, 112, 117, 32, 99, 111, 114, 101, 115] : Bytes) ++ tabColon ++ renderDec b.cores,
    []]
 
 def renderCpuinfo (bs : List CpuBlock) : Bytes := unlines (bs.flatMap blockLines)
